@@ -173,4 +173,5 @@ def augment(
             AugmentedMDP.action_list = action_list
         else:
             AugmentedMDP.action_list = mdp.action_list
+    AugmentedMDP.discount_rate = mdp.discount_rate
     return AugmentedMDP()
